@@ -3,6 +3,10 @@
    every pair of grids, agent location, action, time limit and reward function. *)
 Require Import JV.Base.Prelude JV.Base.JaxIndex JV.Base.Codec JV.Base.TimeStep JV.Gen.TimeStepSrc JV.Gen.SokobanSrc.
 Require JV.Model.Sokoban.
+Require Import Btauto.
+(* equal conditionals up to a boolean tautology of their conditions (a | ~b versus ~b | a, ...): keeps the tie insensitive to spelling *)
+Ltac if_eq := first [reflexivity | match goal with |- (if ?c then _ else _) = (if ?d then _ else _) =>
+    let H := fresh in assert (H : c = d) by btauto; rewrite H; clear H; destruct d; if_eq end].
 Module M := JV.Model.Sokoban.
 
 Definition conv (s : State) : M.state :=
@@ -18,13 +22,13 @@ Proof. unfold in_grid, M.in_grid, pb_all, pb_and, pos_cmp. cbn [fst snd]. rewrit
 
 Lemma push_src fx vr p a : update_box_push_action fx vr p a = M.box_push_action GRID_SIZE fx vr (fst p) (snd p) a.
 Proof.
-  unfold update_box_push_action, M.box_push_action, M.move_of. change MOVES with M.MOVES.
-  destruct (jget (0, 0) M.MOVES a) as [dr dc]. rewrite !check_src, in_grid_src. cbn [fst snd]. reflexivity.
+  unfold update_box_push_action, M.box_push_action, M.move_of. cbv zeta. change MOVES with M.MOVES.
+  destruct (jget (0, 0) M.MOVES a) as [dr dc]. rewrite !check_src, ?in_grid_src. cbn [fst snd]. unfold WALL, BOX, NOOP, M.WALL, M.BOX, M.NOOP. if_eq.
 Qed.
 Lemma noop_src vr fx a p : detect_noop_action vr fx a p = M.detect_noop GRID_SIZE vr fx a (fst p) (snd p).
 Proof.
-  unfold detect_noop_action, M.detect_noop, M.move_of. change MOVES with M.MOVES.
-  destruct (jget (0, 0) M.MOVES a) as [dr dc]. rewrite !check_src, in_grid_src, push_src. cbn [fst snd]. reflexivity.
+  unfold detect_noop_action, M.detect_noop, M.move_of. cbv zeta. change MOVES with M.MOVES.
+  destruct (jget (0, 0) M.MOVES a) as [dr dc]. rewrite !check_src, ?in_grid_src, push_src. cbn [fst snd]. unfold WALL, BOX, NOOP, M.WALL, M.BOX, M.NOOP. if_eq.
 Qed.
 Lemma move_src vr a p : move_agent vr a p = M.move_agent vr a (fst p) (snd p).
 Proof.
